@@ -565,7 +565,9 @@ static void item(uint64_t it)
 	if (seg == nsegs(st->n) - 1) MC_COUNT("a_bytewise_compared");
 	if (!o.text || !base_text || o.len != base_len || memcmp(o.text, base_text, o.len)) {
 		char key[160];
-		snprintf(key, sizeof key, "C23/segmentation-dependent/%s", st->cls);
+		/* keyed by catalogue group (rl hs te ch bl pp eol): one broken reader shows up in many
+		 * classes at once, and every distinct key costs two replays; the class is in the message */
+		snprintf(key, sizeof key, "C23/segmentation-dependent/%.*s", (int)strcspn(st->cls, ":"), st->cls);
 		mc_fail(key, "stream class %s, segmentation %llu of %llu: outcome\n  %s\ndiffers from the unsegmented outcome\n  %s", st->tag,
 		    (unsigned long long)seg, (unsigned long long)nsegs(st->n), o.text ? o.text : "(none)", base_text ? base_text : "(none)");
 	}
